@@ -230,7 +230,12 @@ def run_one(tape, cfg):
                 gbs = (2 ** 20, 1, 2, 3, 8)[tape.draw(5, "gblocksize")]
                 if gbs < 2 ** 20:
                     out.probe("groupby_disk_small_blocksize")
-                res = b.groupby(bf.mod3, shuffle="disk", npartitions=gnp, blocksize=gbs)
+                # the spill directory is read from the configuration when the graph is BUILT; the
+                # result is computed twice below against the same directory
+                os.makedirs(os.path.abspath("spill"), exist_ok=True)
+                with dask.config.set(temporary_directory=os.path.abspath("spill")):
+                    res = b.groupby(bf.mod3, shuffle="disk", npartitions=gnp, blocksize=gbs)
+                out.probe("groupby_disk_with_temporary_directory")
             else:
                 res = b.groupby(bf.mod3, shuffle="tasks", max_branch=max_branch)
             d = {}
